@@ -892,7 +892,7 @@ func ruleBindEmission(c *Ctx, r *Report, rule string) {
 		n++
 		var ops []string
 		for _, t := range o.Trace {
-			if t != "adv" && t != "loop{" && t != "}" {
+			if t != "adv" && t != "semi" && t != "loop{" && t != "}" {
 				ops = append(ops, t)
 			}
 		}
